@@ -1,7 +1,7 @@
 import MakoModel.Conc.Lemmas
 /-!
-`adjust_uri` and `_uri_cache`: with the plain dict (`collection_size = -1`) a key, once present, stays, so the
-unguarded read after `key in self._uri_cache` succeeds; the bounded `LRUCache` evicts (finding F-C16-2).
+`adjust_uri` and `_uri_cache`: the read is `try: return self._uri_cache[key] except KeyError: …`, so no schedule –
+with the plain dict or with the evicting `LRUCache` – makes `adjust_uri` raise.
 -/
 namespace MakoModel.Conc
 
@@ -9,31 +9,10 @@ def Pc.NoKeyErr : Pc → Prop
   | .gM r | .gMd r _ | .gRel r => r ≠ .keyError
   | _ => True
 
-/-- plain dict: a thread that saw its key is still going to find it; nobody got a `KeyError` -/
+/-- nobody got, or is about to be handed, a `KeyError` -/
 structure UriInv (s : Sys) : Prop where
-  seen : ∀ t k, (s.threads t).pc = .aG k → uHas s.sh.ucache k = true
   pc : ∀ t, (s.threads t).pc.NoKeyErr
   res : ∀ t, ∀ r ∈ (s.threads t).results, r ≠ .keyError
-
-theorem uHas_uSet_none {c : List (Nat × Nat)} {k k' now : Nat} (h : uHas c k = true) :
-    uHas (uSet none c k' now) k = true := by
-  unfold uSet
-  simp only
-  split
-  · exact h
-  · simp only [uHas, List.any_append, Bool.or_eq_true] at *
-    exact Or.inl h
-
-/-- plain dict: no step removes a key of `_uri_cache` -/
-theorem tstep_ucache_plain {cfg : Cfg} {tid : Tid} {sh sh' : Sh} {th th' : Thread} (hc : cfg.cap = none)
-    (h : tstep cfg tid sh th = some (sh', th')) : ∀ k, uHas sh.ucache k = true → uHas sh'.ucache k = true := by
-  tstep_cases h
-  case h_2 =>
-    startOp_cases h
-    all_goals (intro k hk; first | exact hk | (simpa using hk))
-  all_goals (first | (intro k hk; exact hk) | (intro k hk; simpa using hk) | skip)
-  all_goals (first | (exfalso; simp_all; done) | skip)
-  all_goals (intro k hk; exact uHas_uSet_none hk)
 
 theorem nokey_ret {th : Thread} {r : Res} (hr : ∀ r ∈ th.results, r ≠ .keyError) (h : r ≠ .keyError) :
     ∀ r' ∈ (th.ret r).results, r' ≠ .keyError := by
@@ -43,62 +22,45 @@ theorem nokey_ret {th : Thread} {r : Res} (hr : ∀ r ∈ th.results, r ≠ .key
   · exact hr _ h'
   · exact h
 
-theorem tstep_uri {cfg : Cfg} {tid : Tid} {sh sh' : Sh} {th th' : Thread} (hc : cfg.cap = none)
-    (h : tstep cfg tid sh th = some (sh', th'))
-    (hs : ∀ k, th.pc = .aG k → uHas sh.ucache k = true) (hp : th.pc.NoKeyErr)
+theorem tstep_uri {cfg : Cfg} {tid : Tid} {sh sh' : Sh} {th th' : Thread}
+    (h : tstep cfg tid sh th = some (sh', th')) (hp : th.pc.NoKeyErr)
     (hr : ∀ r ∈ th.results, r ≠ .keyError) :
-    (∀ k, th'.pc = .aG k → uHas sh'.ucache k = true) ∧ th'.pc.NoKeyErr ∧ ∀ r ∈ th'.results, r ≠ .keyError := by
+    th'.pc.NoKeyErr ∧ ∀ r ∈ th'.results, r ≠ .keyError := by
   tstep_cases h
   case h_2 =>
     startOp_cases h
     all_goals (first
-      | (refine ⟨?_, ?_, ?_⟩
-         · intro k hk; simp at hk
+      | (refine ⟨?_, ?_⟩
          · simp [Pc.NoKeyErr]
          · first | exact hr | (refine nokey_ret ?_ ?_; exact hr; simp [Thread.okRes]; done))
-      | (refine ⟨?_, by simp [Pc.NoKeyErr], hr⟩
-         intro k hk; simp at hk; subst hk; assumption)
-      | (refine ⟨?_, ?_, hr⟩
-         · intro k hk
-           rw [‹th.pc = Pc.idle›] at hk; simp at hk
-         · show Pc.NoKeyErr th.pc
-           rw [‹th.pc = Pc.idle›]; trivial)
+      | (refine ⟨?_, hr⟩
+         show Pc.NoKeyErr th.pc
+         rw [‹th.pc = Pc.idle›]; trivial)
       | (rcases afterScan_cases _ _ _ _ _ _ _ with ⟨_, hh⟩ | ⟨_, _, _, hh⟩ <;> rw [hh]
-         · exact ⟨by intro k hk; simp at hk, by simp [Pc.NoKeyErr], by refine nokey_ret ?_ ?_; exact hr; simp⟩
-         · exact ⟨by intro k hk; simp at hk, by simp [Pc.NoKeyErr], hr⟩))
+         · exact ⟨by simp [Pc.NoKeyErr], by refine nokey_ret ?_ ?_; exact hr; simp⟩
+         · exact ⟨by simp [Pc.NoKeyErr], hr⟩))
   all_goals (rw [‹th.pc = _›] at hp; simp only [Pc.NoKeyErr] at hp)
   all_goals (first
-    | (exfalso; simp_all; done)
-    | (refine ⟨?_, ?_, ?_⟩
-       · intro k hk; simp at hk
+    | (refine ⟨?_, ?_⟩
        · first | (simp [Pc.NoKeyErr]; done) | (simp [Pc.NoKeyErr]; exact hp) | (simp [Pc.NoKeyErr, Thread.okRes]; done)
        · first | exact hr | (refine nokey_ret hr ?_; simp [Thread.okRes]; done) | exact nokey_ret hr hp)
-    | (refine ⟨?_, ?_, hr⟩
-       · intro k hk; split at hk <;> simp at hk
-       · split <;> simp [Pc.NoKeyErr] <;> exact hp)
+    | (refine ⟨?_, hr⟩
+       split <;> simp [Pc.NoKeyErr] <;> exact hp)
+    | (refine ⟨?_, hr⟩
+       show Pc.NoKeyErr th.pc
+       rw [‹th.pc = _›]; simp [Pc.NoKeyErr]; exact hp)
     | (rcases afterScan_cases _ _ _ _ _ _ _ with ⟨_, hh⟩ | ⟨_, _, _, hh⟩ <;> rw [hh]
-       · exact ⟨by intro k hk; simp at hk, by simp [Pc.NoKeyErr], by refine nokey_ret hr ?_; simp⟩
-       · exact ⟨by intro k hk; simp at hk, by simp [Pc.NoKeyErr], hr⟩)
-    | (exfalso
-       have := hs _ ‹_›
-       simp_all
-       done)
-    | skip)
+       · exact ⟨by simp [Pc.NoKeyErr], by refine nokey_ret hr ?_; simp⟩
+       · exact ⟨by simp [Pc.NoKeyErr], hr⟩))
 
 theorem uriInv_init {s : Sys} (h : Init s) : UriInv s where
-  seen := fun t k hk => by rw [(h.threads t).1] at hk; simp at hk
   pc := fun t => by rw [(h.threads t).1]; trivial
   res := fun t => by rw [(h.threads t).2.1]; simp
 
-theorem uriInv_step {s s' : Sys} {tid : Tid} (hc : s.cfg.cap = none) (hi : UriInv s)
-    (h : step s tid = some s') : UriInv s' := by
+theorem uriInv_step {s s' : Sys} {tid : Tid} (hi : UriInv s) (h : step s tid = some s') : UriInv s' := by
   obtain ⟨sh, th, ht, rfl⟩ := step_iff.1 h
-  obtain ⟨h1, h2, h3⟩ := tstep_uri hc ht (hi.seen tid) (hi.pc tid) (hi.res tid)
-  refine ⟨fun t k hk => ?_, fun t => ?_, fun t => ?_⟩
-  · simp only [set_threads, set_sh] at hk ⊢
-    split at hk
-    · exact h1 k hk
-    · exact tstep_ucache_plain hc ht k (hi.seen t k hk)
+  obtain ⟨h2, h3⟩ := tstep_uri ht (hi.pc tid) (hi.res tid)
+  refine ⟨fun t => ?_, fun t => ?_⟩
   · simp only [set_threads]; split
     · exact h2
     · exact hi.pc t
@@ -106,11 +68,25 @@ theorem uriInv_step {s s' : Sys} {tid : Tid} (hc : s.cfg.cap = none) (hi : UriIn
     · exact h3
     · exact hi.res t
 
-theorem uriInv_reachable {s0 s : Sys} (h0 : Init s0) (hc : s0.cfg.cap = none) (hr : Reachable s0 s) : UriInv s := by
-  have : UriInv s ∧ s.cfg = s0.cfg := by
-    refine reachable_induction (P := fun s => UriInv s ∧ s.cfg = s0.cfg) hr ⟨uriInv_init h0, rfl⟩ ?_
-    intro s tid s' ih h
-    exact ⟨uriInv_step (by rw [ih.2]; exact hc) ih.1 h, (step_cfg h).trans ih.2⟩
-  exact this.1
+theorem uriInv_reachable {s0 s : Sys} (h0 : Init s0) (hr : Reachable s0 s) : UriInv s :=
+  reachable_induction hr (uriInv_init h0) (fun _ _ _ ih h => uriInv_step ih h)
+
+theorem tstep_adjust_start {cfg : Cfg} {tid : Tid} {sh : Sh} {th : Thread} {k : Nat} {rest : List Op}
+    (hpc : th.pc = .idle) (hprog : th.prog = .adjust k :: rest) :
+    ∃ sh' th', tstep cfg tid sh th = some (sh', th') ∧
+      ((th'.pc = .idle ∧ th'.results = th.results ++ [.adjusted k]) ∨ th'.pc = .aS k) := by
+  cases hu : uHas sh.ucache k <;> cases hc : cfg.cap <;>
+    simp only [tstep, hpc, hprog, startOp, hu, hc, Thread.ret, Thread.at] <;>
+    exact ⟨_, _, rfl, by simp⟩
+
+theorem tstep_adjust_store {cfg : Cfg} {tid : Tid} {sh : Sh} {th : Thread} {k : Nat} (hpc : th.pc = .aS k) :
+    ∃ sh' th', tstep cfg tid sh th = some (sh', th') ∧ th'.pc = .idle ∧
+      th'.results = th.results ++ [.adjusted k] := by
+  cases hc : cfg.cap <;> simp only [tstep, hpc, hc, Thread.ret] <;> exact ⟨_, _, rfl, rfl, rfl⟩
+
+theorem step_of_tstep {s : Sys} {tid : Tid} {sh : Sh} {th : Thread}
+    (h : tstep s.cfg tid s.sh (s.threads tid) = some (sh, th)) :
+    ∃ s1, step s tid = some s1 ∧ s1.threads tid = th :=
+  ⟨s.set tid sh th, step_iff.2 ⟨sh, th, h, rfl⟩, set_threads_self _ _ _ _⟩
 
 end MakoModel.Conc
